@@ -277,6 +277,10 @@ func (m *Machine) sortSlice(fr *frame, s []value, less value) {
 func init() {
 	reg("internal/abi.NoEscape", func(fr *frame, a []value) value { return a[0] })
 	reg("internal/abi.Escape", func(fr *frame, a []value) value { return a[0] })
+	// context.WithValue only asks whether the key type is comparable
+	reg("internal/reflectlite.TypeOf", func(fr *frame, a []value) value {
+		return iface{t: types.Typ[types.Int], v: &opaque{t: types.Typ[types.Int], from: "reflectlite.TypeOf", noop: true}}
+	})
 	for _, n := range []string{"sort.Slice", "sort.SliceStable"} {
 		reg(n, func(fr *frame, a []value) value {
 			s, ok := a[0].(iface).v.([]value)
